@@ -21,7 +21,7 @@ RULE = (
     "non-trivial = A non-zero; distinct = sha1(input, group)"
 )
 BOUNDS = {
-    "quick": "m,n<=4 (+ whole-matrix scalings 2^-40, 2^20, 2^30), all ranks, all compositions, values {4,2,1,1/2} (gap >= 2^-1 above threshold), 3 factor kinds; laws on 6x6 pairs of invertible factors per size n<=3; Moore on all n<=3 compositions x sign patterns",
+    "quick": "m,n<=4 and strongly rectangular shapes 2x6, 6x2, 2x7, 3x9, 9x3, 1x8, 8x1 (+ whole-matrix scalings 2^-40, 2^20, 2^30), all ranks, all compositions, values {4,2,1,1/2} (gap >= 2^-1 above threshold), 3 factor kinds; laws on 6x6 pairs of invertible factors per size n<=3; Moore on all n<=3 compositions x sign patterns",
     "thorough": "m,n<=6, laws n<=5",
 }
 WALL_BUDGET = {"quick": 300, "thorough": 2400}
@@ -31,7 +31,9 @@ ASSUMPTIONS = ["no borderline singular values: non-zero values are >= 1/4, far a
 def cases(tier, seed):
     S = 4 if tier == "quick" else 6
     out = []
-    for m, n in itertools.product(range(1, S + 1), repeat=2):
+    shapes = list(itertools.product(range(1, S + 1), repeat=2))
+    shapes += [sh for sh in ((2, 6), (6, 2), (2, 7), (3, 9), (9, 3), (1, 8), (8, 1)) if sh not in shapes]  # strongly rectangular
+    for m, n in shapes:
         p = min(m, n)
         for vals, comp, r in SG.spectra(p):
             for kU, kV in SG.FACTOR_KINDS:
